@@ -47,7 +47,14 @@ func basesOf(v ssa.Value) []ssa.Value {
 		case *ssa.ChangeType:
 			walk(x.X)
 		case *ssa.Convert:
-			walk(x.X)
+			// string <-> []byte conversions copy; only same-kind conversions alias
+			_, fromSlice := x.X.Type().Underlying().(*types.Slice)
+			_, toSlice := x.Type().Underlying().(*types.Slice)
+			if fromSlice == toSlice {
+				walk(x.X)
+			} else {
+				out = append(out, x)
+			}
 		case *ssa.Phi:
 			for _, e := range x.Edges {
 				walk(e)
@@ -90,6 +97,10 @@ func isFreshAlloc(v ssa.Value) bool {
 		return true
 	case *ssa.MakeSlice, *ssa.MakeMap:
 		return true
+	case *ssa.Convert:
+		_, fromSlice := x.X.Type().Underlying().(*types.Slice)
+		_, toSlice := x.Type().Underlying().(*types.Slice)
+		return fromSlice != toSlice
 	case *ssa.Call:
 		if b, ok := x.Call.Value.(*ssa.Builtin); ok && b.Name() == "append" {
 			// append(nil, …) / append([]T{}, …) allocates
